@@ -330,7 +330,8 @@ type c12EventCase struct {
 	Variadic  bool   `json:"variadic"`  // middleware declared func(string, ...any) error instead of func(string, []any) error
 	Signature string `json:"signature"` // string-first | int-first | none | string-ack | binary
 	Events    int    `json:"events"`
-	Handlers  int    `json:"handlers"` // handlers registered for the event: 1 = OnEvent; 2 = OnEvent twice; 3 = OnEvent twice + OnceEvent (0 is read as 1)
+	ClientAck bool   `json:"client_ack"` // the client asks for an acknowledgement although the handler takes no ack function (signatures without ack)
+	Handlers  int    `json:"handlers"`   // handlers registered for the event: 1 = OnEvent; 2 = OnEvent twice; 3 = OnEvent twice + OnceEvent (0 is read as 1)
 }
 
 func evalC12Event(c c12EventCase) (f *Failure, nontrivial bool) {
@@ -415,17 +416,21 @@ func evalC12Event(c c12EventCase) (f *Failure, nontrivial bool) {
 		}
 		acks := 0
 		for i := 0; i < c.Events; i++ {
+			extra := []any{}
+			if c.ClientAck {
+				extra = append(extra, func() {})
+			}
 			switch c.Signature {
 			case "string-first":
-				cli.Emit("ev", fmt.Sprintf("hi%d", i), i)
+				cli.Emit("ev", append([]any{fmt.Sprintf("hi%d", i), i}, extra...)...)
 			case "int-first":
-				cli.Emit("ev", i, fmt.Sprintf("hi%d", i))
+				cli.Emit("ev", append([]any{i, fmt.Sprintf("hi%d", i)}, extra...)...)
 			case "none":
-				cli.Emit("ev")
+				cli.Emit("ev", extra...)
 			case "string-ack":
 				cli.Emit("ev", fmt.Sprintf("hi%d", i), func(reply string) { mu.Lock(); acks++; mu.Unlock() })
 			case "binary":
-				cli.Emit("ev", Bin(fmt.Sprintf("bin%d", i)), "tail")
+				cli.Emit("ev", append([]any{Bin(fmt.Sprintf("bin%d", i)), "tail"}, extra...)...)
 			}
 			settle(100 * time.Millisecond)
 		}
@@ -510,13 +515,13 @@ func TestC12_EventChain(t *testing.T) {
 	setT(t)
 	defer startWatchdog(t, 60*time.Second)()
 	ev := NewEv(t, "C12", c12CheckEvent, "rapid on the rig: chains of 0..3 per-socket event middlewares (ServerSocket.Use, both accepted declarations), accept/reject, event signatures {string first, "+
-		"non-string first, no arguments, with ack function, binary first}, 1..3 handlers registered for the event (OnEvent, OnEvent again, OnceEvent), 1..4 events; oracle: every middleware up to the first rejecter sees the emitted event name and the arguments, before the handler; "+
+		"non-string first, no arguments, with ack function, binary first}, 1..3 handlers registered for the event (OnEvent, OnEvent again, OnceEvent), the client optionally asking for an acknowledgement the handler does not take, 1..4 events; oracle: every middleware up to the first rejecter sees the emitted event name and the arguments, before the handler; "+
 		"rejected => no handler runs and the error handlers fire (once per event or per handler); accepted => every On handler once per event, the Once handler once (ack returns); "+
 		"non-trivial = a chain >= 1 on an event whose first argument is not a string")
 	rapidGuard(t, "C12", c12CheckEvent)
 	runRapid(t, c12CheckEvent, tierN(8000, 60000), func(t *rapid.T) {
 		c := c12EventCase{Transport: rapid.SampledFrom([]string{"polling", "websocket"}).Draw(t, "transport"), Variadic: rapid.Bool().Draw(t, "variadic"),
-			Signature: rapid.SampledFrom([]string{"string-first", "int-first", "none", "string-ack", "binary"}).Draw(t, "signature"), Events: rapid.IntRange(1, 4).Draw(t, "events"), Handlers: rapid.SampledFrom([]int{1, 1, 2, 3}).Draw(t, "handlers")}
+			Signature: rapid.SampledFrom([]string{"string-first", "int-first", "none", "string-ack", "binary"}).Draw(t, "signature"), Events: rapid.IntRange(1, 4).Draw(t, "events"), Handlers: rapid.SampledFrom([]int{1, 1, 2, 3}).Draw(t, "handlers"), ClientAck: rapid.IntRange(0, 2).Draw(t, "clientAck") == 0}
 		for i, n := 0, rapid.IntRange(0, 3).Draw(t, "chain"); i < n; i++ {
 			c.Chain = append(c.Chain, rapid.IntRange(0, 3).Draw(t, "accept") > 0)
 		}
